@@ -7,6 +7,7 @@ import (
 
 // C12 — output is all-or-nothing and writer failures are reported.
 
+//verif:harness VerifC12_LargeDocument quick.maxpaths=20000 thorough.maxpaths=100000 timeout=1800 steps=60000000
 //verif:harness VerifC12_AllOrNothing poolreuse=lifo quick.maxpaths=60000 thorough.maxpaths=400000 timeout=2400 steps=20000000
 
 func zzC12FS() *zzFS {
@@ -15,6 +16,7 @@ func zzC12FS() *zzFS {
 		"c.vuego":            `<p>{{ n }}</p>`,
 		"bad_early.vuego":    `<p>{{ title | nofn }}</p><h1>late</h1>`,
 		"bad_late.vuego":     `<h1>ok</h1><ul><li v-for="i in items">{{ i | nofn }}</li></ul>`,
+		"bad_mid.vuego":      `<p title="t-{{ title }}-{{ title | nofn }}">card {{ title }} / {{ n | nofn }}</p>`,
 		"bad_inc.vuego":      `<h1>ok</h1><template include="missing.vuego"></template>`,
 		"bad_req.vuego":      `<h1>ok</h1><template include="req.vuego"></template>`,
 		"req.vuego":          `<template :required="must"><i>{{ must }}</i></template>`,
@@ -25,13 +27,14 @@ func zzC12FS() *zzFS {
 	})
 }
 
-var zzC12Files = []string{"page.vuego", "bad_early.vuego", "bad_late.vuego", "bad_inc.vuego", "bad_req.vuego", "lp.vuego", "lbad.vuego", "nofile.vuego"}
+var zzC12Files = []string{"page.vuego", "bad_early.vuego", "bad_late.vuego", "bad_mid.vuego", "bad_inc.vuego", "bad_req.vuego", "lp.vuego", "lbad.vuego", "nofile.vuego"}
 
 var zzC12Strings = []string{
 	`<h1>{{ title }}</h1><template include="c.vuego" :n="n"></template>`,
 	`<h1>{{ title }}</h1><p>{{ title | nofn }}</p>`,
 	`<h1>ok</h1><template include="missing.vuego"></template>`,
 	`<h1>ok</h1><template include="req.vuego"></template>`,
+	`<h1>ok {{ title }} then {{ title | nofn }}</h1>`,
 }
 
 func zzC12Data() map[string]any {
@@ -97,6 +100,21 @@ func VerifC12_AllOrNothing() {
 		zzAssert(againErr != nil && len(again.got) == 0, "C12.sequence.next-render-after-a-failure")
 	}
 
+	// and a healthy program on the same engine delivers what a fresh engine delivers
+	healthy := func(t Template) (string, error) {
+		hw := &zzWriter{limit: 1 << 20}
+		var herr error
+		if entry < 2 {
+			herr = t.RenderFile(zzCtx{}, hw, "page.vuego")
+		} else {
+			herr = t.RenderString(zzCtx{}, hw, zzC12Strings[0])
+		}
+		return string(hw.got), herr
+	}
+	hGot, hErr := healthy(tpl)
+	hWant, hWantErr := healthy(NewFS(zzC12FS()).Fill(zzC12Data()))
+	zzAssert(hErr == nil && hWantErr == nil && hGot == hWant, "C12.sequence.healthy-render-after-a-failure")
+
 	if cancelled {
 		zzAssert(err != nil, "C12.ctx.cancelled-must-fail")
 		zzAssert(len(w.got) == 0, "C12.ctx.cancelled-wrote-output")
@@ -117,4 +135,49 @@ func VerifC12_AllOrNothing() {
 		zzAssert(w.fails > 0, "C12.writer.never-failed")
 		zzAssert(err != nil, "C12.writer.failure-not-reported")
 	}
+}
+
+// VerifC12_LargeDocument: the same clauses for a document of several
+// kilobytes (larger than any chunk an implementation may buffer), with the
+// writer failing at offsets around powers of two, through every entry point.
+func VerifC12_LargeDocument() {
+	n := zzBound("items", 300, 700)
+	items := make([]int, n)
+	for i := range items {
+		items[i] = 100000 + i
+	}
+	fsys := newZZFS(map[string]string{
+		"big.vuego":          `<ul><li v-for="i in items" class="row">item {{ i }}</li></ul>`,
+		"lbig.vuego":         "---\nlayout: wrap\n---\n<ul><li v-for=\"i in items\" class=\"row\">item {{ i }}</li></ul>",
+		"layouts/wrap.vuego": `<main><div v-html="content"></div></main>`,
+	})
+	entry := zzChoice("entry", 5)
+	tpl := NewFS(fsys).Fill(map[string]any{"items": items})
+	run := func(w *zzWriter) error {
+		switch entry {
+		case 0:
+			return tpl.RenderFile(zzCtx{}, w, "big.vuego")
+		case 1:
+			return tpl.Load("big.vuego").Render(zzCtx{}, w)
+		case 2:
+			return tpl.Load("lbig.vuego").Render(zzCtx{}, w)
+		case 3:
+			return tpl.RenderString(zzCtx{}, w, `<ul><li v-for="i in items" class="row">item {{ i }}</li></ul>`)
+		default:
+			return NewVue(fsys).Render(w, "big.vuego", map[string]any{"items": items})
+		}
+	}
+	ref := &zzWriter{limit: 1 << 24}
+	zzAssert(run(ref) == nil, "C12.large.reference-render")
+	size := len(ref.got)
+	zzNote("size", size)
+	zzAssert(size > 8192, "C12.large.document-is-large")
+	offsets := []int{0, 1, 511, 512, 1023, 1024, 2047, 2048, 4095, 4096, 4097, 5000, 8191, 8192, 8193, size / 2, size - 4097, size - 4096, size - 1}
+	limit := offsets[zzChoice("offset", len(offsets))]
+	w := &zzWriter{limit: limit, transient: zzBool("transientFailure")}
+	err := run(w)
+	zzAssert(w.fails > 0, "C12.large.writer-never-failed")
+	zzAssert(err != nil, "C12.writer.failure-not-reported")
+	full := &zzWriter{limit: size}
+	zzAssert(run(full) == nil && len(full.got) == size, "C12.ok.incomplete-document")
 }
